@@ -7,7 +7,8 @@
      W2 one loop context per subgraph
      W3 each subgraph a single pull-then-push pipeline (forward internal edges, fan-in only on the
         pull side and fan-out only on the push side, fed/drained only through the pivot, connected)
-     W4 handoffs exactly on the edges that cross subgraphs, none inside a subgraph
+     W4 handoffs exactly on the edges that cross subgraphs, none inside a subgraph (a delay-marked,
+        double-buffered back edge may return into the subgraph it left)
      W5 every delayed input comes out of a handoff marked with the consumer port's delay type
         (remapped to Loop/LoopLazy in nested loops), no other marks
      W6 referenced nodes are handoffs; producer subgraph strictly before the borrower, borrower
